@@ -1,1 +1,186 @@
-From BWExec Require Import Exec.
+(* C04 — data and graph statements change the store exactly as stated, nothing else.
+   Object of the theorems: `exec` (coq/Exec/Exec.v), the executor model run over a driver that never fails; it is
+   tied to bql/planner + storage/memory by the h_exec correspondence.  Inputs of the model (not computed by it):
+   the solution rows of the WHERE pattern (q_rows), whether the query engine failed (q_ok), the blank-node draws. *)
+From Coq Require Import List NArith ZArith Bool Arith.
+From Coq.Strings Require Import Byte.
+Import ListNotations.
+From BWExec Require Import Base Values Store Driver Exec Spec BaseProofs StoreProofs ExecProofs.
+
+(* ---- INSERT / DELETE: every named graph that exists gets exactly the union / difference; the statement succeeds
+   iff every named graph exists; when one is missing the others are still written (update() joins the errors) ---- *)
+Theorem C04_insert_delete :
+  forall bulk st gs ts, gs <> [] -> ts <> [] ->
+  (forall r st', exec bulk st (SInsert gs ts) = (r, st') ->
+     names st' = names st /\
+     (forall g, In g gs -> has st g = true -> forall t, In t (getd st' g) <-> In t (getd st g) \/ In t ts) /\
+     (forall g, ~ In g gs -> get st' g = get st g) /\
+     (r = ROk <-> forall g, In g gs -> has st g = true) /\ (r = ROk \/ r = RErr EUpdate)) /\
+  (forall r st', exec bulk st (SDelete gs ts) = (r, st') ->
+     names st' = names st /\
+     (forall g, In g gs -> has st g = true -> forall t, In t (getd st' g) <-> In t (getd st g) /\ ~ In t ts) /\
+     (forall g, ~ In g gs -> get st' g = get st g) /\
+     (r = ROk <-> forall g, In g gs -> has st g = true) /\ (r = ROk \/ r = RErr EUpdate)).
+Proof.
+  intros bulk st gs ts Hg Ht. split; intros r st' H.
+  - destruct (exec_update_spec true bulk st gs ts r st' H Hg Ht) as [A [B [C [D E]]]].
+    split; [exact A|]. split; [exact C|]. split; [exact B|]. split; [exact D | exact E].
+  - destruct (exec_update_spec false bulk st gs ts r st' H Hg Ht) as [A [B [C [D E]]]].
+    split; [exact A|]. split; [exact C|]. split; [exact B|]. split; [exact D | exact E].
+Qed.
+Print Assumptions C04_insert_delete.
+
+(* ---- CREATE / DROP: exactly the named graphs appear (empty) / disappear; existing graphs keep their contents ---- *)
+Theorem C04_create_drop :
+  forall bulk st gs, gs <> [] ->
+  (forall r st', exec bulk st (SCreate gs) = (r, st') ->
+     (forall g, has st' g = has st g || mem str_eqb g gs) /\
+     (forall g, has st g = true -> get st' g = get st g) /\
+     (forall g, In g gs -> has st g = false -> get st' g = Some []) /\
+     (r = ROk <-> NoDup gs /\ forall g, In g gs -> has st g = false) /\ (r = ROk \/ r = RErr EUpdate)) /\
+  (forall r st', exec bulk st (SDrop gs) = (r, st') ->
+     (forall g, has st' g = has st g && negb (mem str_eqb g gs)) /\
+     (forall g, ~ In g gs -> get st' g = get st g) /\
+     (r = ROk <-> NoDup gs /\ forall g, In g gs -> has st g = true) /\ (r = ROk \/ r = RErr EUpdate)).
+Proof.
+  intros bulk st gs Hg. split; intros r st' H.
+  - exact (exec_create_spec bulk st gs r st' H Hg).
+  - exact (exec_drop_spec bulk st gs r st' H Hg).
+Qed.
+Print Assumptions C04_create_drop.
+
+(* ---- CONSTRUCT: every output graph = old contents ∪ the template groups, one group per (clause, solution row) ---- *)
+Theorem C04_construct :
+  forall bulk st tmpl outs ins wb q draw r st',
+  exec bulk st (SConstruct true tmpl outs ins wb q draw) = (r, st') ->
+  static_ok (SConstruct true tmpl outs ins wb q draw) = true ->
+  (forall g, In g (ins ++ outs) -> has st g = true) -> q_ok q = true -> r = ROk ->
+  exists gs i',
+    produced (output_bindings tmpl) draw 0 (list_prod tmpl (q_rows q)) gs i' /\
+    length gs = length tmpl * length (q_rows q) /\
+    (forall g, In g outs -> forall t, In t (getd st' g) <-> In t (getd st g) \/ In t (concat gs)) /\
+    (forall g, ~ In g outs -> get st' g = get st g).
+Proof.
+  intros bulk st tmpl outs ins wb q draw r st' H HS Hall Hq Hr.
+  destruct (exec_construct_spec true bulk st tmpl outs ins wb q draw r st' H HS Hall Hq) as [_ X].
+  destruct (X Hr) as [gs [i' [Hp Hc]]]. exists gs, i'. split; [exact Hp|]. split; [|split; [exact Hc|]].
+  - rewrite (produced_length _ _ _ _ _ _ Hp). apply prod_length.
+  - intros g Hg. change st' with (snd (r, st')). rewrite <- H. apply (exec_frame bulk st _ g). exact Hg.
+Qed.
+Print Assumptions C04_construct.
+
+(* ---- what a group is: without `;` the instantiated triple; with `;` exactly 3 + (#pairs - 1) triples, all on the
+   blank node drawn for this (clause, row); the reified triple itself is not added ---- *)
+Theorem C04_construct_groups :
+  forall bs c r b g, group_of bs c r b g ->
+  (cRest c = [] -> exists t, process_cc bs r c = Some t /\ g = [t]) /\
+  (cRest c <> [] ->
+     length g = 3 + length (cRest c) /\
+     (forall t, In t g -> subject_of t = Blank b) /\
+     (exists t, process_cc bs r c = Some t /\ firstn 3 g = reify t b /\ (subject_of t <> Blank b -> ~ In t g))).
+Proof.
+  intros bs c r b g H. split; intro R.
+  - destruct H as [t R' E | t es R' E F]; [exists t; auto | congruence].
+  - split; [|split].
+    + rewrite (group_of_length _ _ _ _ _ H). destruct (cRest c); [congruence | reflexivity].
+    + exact (group_of_subjects _ _ _ _ _ H R).
+    + destruct H as [t R' E | t es R' E F]; [congruence|]. exists t. split; [exact E|]. split.
+      * destruct t as [[s p] o]. reflexivity.
+      * intro Hs. apply (group_of_not_original bs c r b _ t (G_reified bs c r b t es R' E F) R E Hs).
+Qed.
+Print Assumptions C04_construct_groups.
+
+(* ---- freshness: with a fresh supply, a blank id that is not old (store, template, rows) is mentioned by the
+   triples of at most ONE group, and every reified group sits on such a blank ---- *)
+Theorem C04_construct_fresh :
+  forall st tmpl rows draw gs i',
+  fresh_supply (old_ids st tmpl rows) draw ->
+  produced (output_bindings tmpl) draw 0 (list_prod tmpl rows) gs i' ->
+  (forall n1 n2 g1 g2 k t1 t2, n1 <> n2 -> nth_error gs n1 = Some g1 -> nth_error gs n2 = Some g2 ->
+      ~ In k (old_ids st tmpl rows) -> In t1 g1 -> mentions k t1 -> In t2 g2 -> mentions k t2 -> False) /\
+  (forall i, ~ In (draw i) (store_blanks st)).
+Proof.
+  intros st tmpl rows draw gs i' Hf Hp. split.
+  - apply (produced_sep _ _ _ _ _ _ _ Hp Hf). intros c r Hin. apply in_prod_iff in Hin. destruct Hin as [Hc Hr].
+    unfold old_ids. intros k Hk. apply in_app_iff in Hk. apply in_app_iff. right. apply in_app_iff.
+    destruct Hk as [Hk|Hk]; [left | right]; apply in_flat_map; eexists; split; eassumption.
+  - intros i Hin. destruct Hf as [Hf _]. apply (Hf i). unfold old_ids. apply in_app_iff. left. exact Hin.
+Qed.
+Print Assumptions C04_construct_fresh.
+
+(* ---- DECONSTRUCT: every output graph = old contents minus the instantiated triples (no `;` in the grammar) ---- *)
+Theorem C04_deconstruct :
+  forall bulk st tmpl outs ins wb q draw r st',
+  exec bulk st (SConstruct false tmpl outs ins wb q draw) = (r, st') ->
+  static_ok (SConstruct false tmpl outs ins wb q draw) = true ->
+  (forall g, In g (ins ++ outs) -> has st g = true) -> q_ok q = true -> r = ROk ->
+  exists gs i',
+    produced (output_bindings tmpl) draw 0 (list_prod tmpl (q_rows q)) gs i' /\
+    length gs = length tmpl * length (q_rows q) /\
+    (forall g, In g outs -> forall t, In t (getd st' g) <-> In t (getd st g) /\ ~ In t (concat gs)) /\
+    (forall g, ~ In g outs -> get st' g = get st g).
+Proof.
+  intros bulk st tmpl outs ins wb q draw r st' H HS Hall Hq Hr.
+  destruct (exec_construct_spec false bulk st tmpl outs ins wb q draw r st' H HS Hall Hq) as [_ X].
+  destruct (X Hr) as [gs [i' [Hp Hc]]]. exists gs, i'. split; [exact Hp|]. split; [|split; [exact Hc|]].
+  - rewrite (produced_length _ _ _ _ _ _ Hp). apply prod_length.
+  - intros g Hg. change st' with (snd (r, st')). rewrite <- H. apply (exec_frame bulk st _ g). exact Hg.
+Qed.
+Print Assumptions C04_deconstruct.
+
+(* ---- frame: a statement, whatever its outcome, leaves every graph it does not name as a target unchanged;
+   so does a whole sequence ---- *)
+Theorem C04_frame :
+  (forall bulk st s g, ~ In g (targets s) -> get (step bulk st s) g = get st g) /\
+  (forall bulk ss st g, (forall s, In s ss -> ~ In g (targets s)) -> get (run bulk st ss) g = get st g).
+Proof. split; [exact exec_frame | exact run_frame]. Qed.
+Print Assumptions C04_frame.
+
+(* ---- rejected before execution starts (parser / semantic checks, or Statement.Init: CONSTRUCT / DECONSTRUCT /
+   SELECT naming a graph that does not exist): an error, every graph unchanged; dropping such a statement from a
+   sequence changes nothing.  Statements that only read never change the store. ---- *)
+Theorem C04_rejected_no_effect :
+  (forall bulk st s, rejected st s = true -> step bulk st s = st /\ exists e, fst (exec bulk st s) = RErr e) /\
+  (forall bulk st ss1 s ss2, rejected (run bulk st ss1) s = true ->
+      run bulk st (ss1 ++ s :: ss2) = run bulk st (ss1 ++ ss2)) /\
+  (forall bulk st s, static_ok s = true -> forallb (has st) (init_graphs s) = true ->
+      (match s with SConstruct _ _ _ _ _ q _ | SSelect _ _ _ q => q_ok q = false | _ => False end) ->
+      exec bulk st s = (RErr EQuery, st)) /\
+  (forall bulk st s, (match s with SSelect _ _ _ _ | SShow | SBad => True | _ => False end) -> snd (exec bulk st s) = st).
+Proof. split; [exact rejected_step | split; [exact run_rejected | split; [exact exec_query_fail | exact exec_readonly]]]. Qed.
+Print Assumptions C04_rejected_no_effect.
+
+(* ---- the store stays a map from distinct names to duplicate-free triple lists, along any statement sequence ---- *)
+Theorem C04_wellformed : forall bulk ss st, WF st -> WF (run bulk st ss).
+Proof. exact run_WF. Qed.
+Print Assumptions C04_wellformed.
+
+(* ---- the freshness hypothesis is satisfiable: counting upwards from above every old id ---- *)
+Theorem C04_fresh_supply_exists : forall old, fresh_supply old (counter_supply old).
+Proof. exact counter_supply_fresh. Qed.
+Print Assumptions C04_fresh_supply_exists.
+
+(* ---- non-vacuity: CONSTRUCT { ?s "p2"@[] ?o ; "q"@[] /u<a> ; "q2"@[] ?s } INTO ?b FROM ?a WHERE { ?s "p"@[] ?o }
+   over two solution rows: success, 2 x (3 + 2) triples on two distinct blank nodes, ?a untouched ---- *)
+Definition gA : str := [x3f;x61].
+Definition gB : str := [x3f;x62].
+Definition bS : str := [x3f;x73].
+Definition bO : str := [x3f;x6f].
+Definition nA : node := Node [x2f;x75] [x61].
+Definition nB : node := Node [x2f;x75] [x62].
+Definition ex_pop (p : str) (o : option obj) (ob : str) : pop := mkPop (Some (mkPred p None)) [] [] [] false o ob [] [] false.
+Definition ex_tmpl : list cclause :=
+  [mkCC None bS (ex_pop [x70;x32] None bO) [ex_pop [x71] (Some (ONode nA)) []; ex_pop [x71;x32] None bS]].
+Definition ex_rows : list row := [[(bS, CNode nA); (bO, CNode nB)]; [(bS, CNode nB); (bO, CNode nA)]].
+Definition ex_store : store := [(gA, [(nA, mkPred [x70] None, ONode nB); (nB, mkPred [x70] None, ONode nA)]); (gB, [])].
+Definition ex_stmt : stmt := SConstruct true ex_tmpl [gB] [gA] [bS; bO] (mkQ [] true ex_rows) (counter_supply []).
+
+Example C04_nonvacuous :
+  fst (exec 3 ex_store ex_stmt) = ROk /\
+  length (getd (snd (exec 3 ex_store ex_stmt)) gB) = 10 /\
+  map subject_of (getd (snd (exec 3 ex_store ex_stmt)) gB) =
+    [Blank 1; Blank 1; Blank 1; Blank 1; Blank 1; Blank 2; Blank 2; Blank 2; Blank 2; Blank 2]%N /\
+  get (snd (exec 3 ex_store ex_stmt)) gA = get ex_store gA /\
+  static_ok ex_stmt = true /\ rejected ex_store ex_stmt = false /\
+  rejected ex_store (SConstruct true ex_tmpl [[x3f;x7a]] [gA] [bS; bO] (mkQ [] true ex_rows) (counter_supply [])) = true.
+Proof. vm_compute. repeat split; reflexivity. Qed.
